@@ -44,6 +44,8 @@ type Run struct {
 	Level string
 	// ReplayMode: violations are printed, nothing is written, known findings are not filtered.
 	ReplayMode bool
+	// Sink, if set, receives violations instead (child processes forward them to the parent).
+	Sink func(key, what, kind string, cs any)
 
 	mu          sync.Mutex
 	start       time.Time
@@ -154,6 +156,28 @@ func (r *Run) Sample(v any) {
 // Count adds to a named coverage counter.
 func (r *Run) Count(key string, n int) { r.mu.Lock(); r.counters[key] += int64(n); r.mu.Unlock() }
 
+// Counters returns a copy of all named counters.
+func (r *Run) Counters() map[string]int64 {
+	r.mu.Lock()
+	defer r.mu.Unlock()
+	out := map[string]int64{}
+	for k, v := range r.counters {
+		out[k] = v
+	}
+	return out
+}
+
+// Marks returns the elements of a coverage set.
+func (r *Run) Marks(set string) []string {
+	r.mu.Lock()
+	defer r.mu.Unlock()
+	var out []string
+	for e := range r.sets[set] {
+		out = append(out, e)
+	}
+	return out
+}
+
 // Counter reads a named counter.
 func (r *Run) Counter(key string) int64 { r.mu.Lock(); defer r.mu.Unlock(); return r.counters[key] }
 
@@ -200,6 +224,11 @@ type Replay struct {
 func (r *Run) Violation(key, what, kind string, cs any) {
 	r.mu.Lock()
 	defer r.mu.Unlock()
+	if r.Sink != nil {
+		r.violations++
+		r.Sink(key, what, kind, cs)
+		return
+	}
 	if r.ReplayMode {
 		r.violations++
 		fmt.Printf("VIOLATION-REPLAYED property=%s key=%s %s\n", r.Prop, key, trunc(what, 2000))
